@@ -23,6 +23,7 @@ import math
 import os
 import re
 import struct
+import subprocess
 
 import vlib
 
@@ -58,11 +59,12 @@ PRELUDE = """fn show(v) {
   if t == Vec { var r = "v("; for x in v { r = r + show(x) + ";"; } return r + ")"; }
   if t == Tuple { var r = "t("; for x in v { r = r + show(x) + ";"; } return r + ")"; }
   if t == Range { return "r" + String.from(v); }
-  if t == StringIter { var r = "i("; var c = v.next(); while type(c) != StopIter { r = r + show(c) + ";"; c = v.next(); } return r + ")"; }
+  if String.from(t) == "<class StringIter>" { var r = "i("; var c = v.next(); while type(c) != StopIter { r = r + show(c) + ";"; c = v.next(); } return r + ")"; }
   if t == StopIter { return "S"; }
   return "x";
 }
 fn out(v) { print(show(v)); if type(v) == String { print(v); } }
+fn upto(n) { var v = []; var i = 0; while i < n { v.push(i); i = i + 1; } return v; }
 """
 
 
@@ -178,8 +180,13 @@ def arg_yl(a):
 
 
 def seq_yl(kind, n):
+    """Source of the vec/tuple 0..n-1 (literals hold at most 255 elements; a longer vec is built by a call)."""
     if kind == "vec":
+        if n > 255:
+            return "upto(%d)" % n
         return "[" + ", ".join(str(i) for i in range(n)) + "]"
+    if n > 255:
+        raise ValueError("no tuple literal of %d elements" % n)
     if n == 1:
         return "(0,)"
     return "(" + ", ".join(str(i) for i in range(n)) + ")"
@@ -389,7 +396,7 @@ def canon_real_step(st, caught=False):
     if val[0] == "s":
         if len(printed) != 2:
             viol.append("unparsable")
-        elif printed[1].encode("utf-8", "surrogatepass") != val[1]:
+        elif printed[1].encode("utf-8", "surrogateescape") != val[1]:
             viol.append("text-vs-bytes")
     elif len(printed) != 1:
         viol.append("unparsable")
@@ -805,12 +812,13 @@ def gen_requests(rng, thorough):
         for x in int_args(n) + SPECIALS:
             reqs.append(mk_set(n, x))
     # a long vec/tuple: the far boundaries
-    for kind in ("vec", "tuple"):
-        n = 300
-        for x in [0, 1, 299, 300, 301, -1, -299, -300, -301, 2 ** 31, -2 ** 31, 2 ** 32, 2 ** 63, -2 ** 63]:
+    for kind, n in (("vec", 300), ("tuple", 255)):
+        for x in [0, 1, n - 1, n, n + 1, -1, 1 - n, -n, -n - 1, 2 ** 31, -2 ** 31, 2 ** 32, 2 ** 63, -2 ** 63]:
             reqs.append(mk_idx(kind, n, x))
-        for b, e in [(0, 300), (0, 301), (299, 300), (300, 300), (-300, -1), (-301, 0), (298, -1), (290, 10), (-1, 300)]:
+        for b, e in [(0, n), (0, n + 1), (n - 1, n), (n, n), (-n, -1), (-n - 1, 0), (n - 2, -1), (n - 10, 10), (-1, n)]:
             reqs.append(mk_rng(kind, n, b, e))
+    reqs.append(mk_set(300, -300))
+    reqs.append(mk_set(300, 300))
 
     # --- natives
     extra = ["aaa", "aaaa", "aéa", "€a€", "😀😀a", "ééé", "aé€😀", "😀€éa", "a,b,,c", ",a,", "abab", "a😀a😀a"]
@@ -913,7 +921,7 @@ def gen_requests(rng, thorough):
         reqs.append(mk_sfn("from_utf8", [V(v)]))
         if len(v) <= 1 or len(reqs) % 3 == 0 or not thorough:
             reqs.append(mk_sfn("from_ascii", [V(v)]))
-    cps = [0, 1, 0x7F, 0x80, 0x7FF, 0x800, 0xFFF, 0x1000, 0xD7FF, 0xD800, 0xDBFF, 0xDC00, 0xDFFF, 0xE000, 0xFFFD, 0xFFFE,
+    cps = [0, 1, 0x7F, 0x80, 0x85, 0x2028, 0x2029, 0xFEFF, 0x7FF, 0x800, 0xFFF, 0x1000, 0xD7FF, 0xD800, 0xDBFF, 0xDC00, 0xDFFF, 0xE000, 0xFFFD, 0xFFFE,
            0xFFFF, 0x10000, 0x1F600, 0x10FFFF, 0x110000, 0x1FFFFF, 0x200000, 2 ** 31 - 1, 2 ** 31, 4294967294, 4294967295,
            4294967296, 2 ** 53, float(I63), 1e24]
     for c in cps:
@@ -970,6 +978,8 @@ MALFORMED = [
     [0x61, 0xE2, 0x82, 0xAC, 0x80], [0x61, 0x80, 0x61], [0xE2, 0x82, 0xAC, 0xE2, 0x82], [0x61, 0xC3], [0xC3, 0xA9, 0xA9],
     [0x80, 0x80], [0xE2, 0x82, 0xAC, 0xF0, 0x9F, 0x98, 0x80, 0xFF], [0x00], [0x00, 0x61, 0x00], [0x7F], [0x0A, 0x0D, 0x09],
     [0x24, 0x7B, 0x7D, 0x22, 0x5C],
+    # line-separator-like characters (NEL, LS, PS, and C1 controls): valid UTF-8 that naive line splitting breaks on
+    [0xC2, 0x85], [0xE2, 0x80, 0xA8], [0xE2, 0x80, 0xA9], [0xC2, 0x9C], [0x61, 0xC2, 0x85, 0x62, 0xE2, 0x80, 0xA8, 0x63],
 ]
 
 # Operations the driver protocol has no request for: fixed expectations taken from vm.rs (kind, template id).
@@ -1007,14 +1017,48 @@ EXTRAS = [
     ('out(("a😀b" + "é")[5..8]);', ("ok", ("s", "bé".encode("utf-8")))),
     ('{ var v = [0, 1, 2]; var w = v[0..2]; w[0] = nil; out((v, w)); }',
      ("ok", ("t", (("v", (("n", bits(0)), ("n", bits(1)), ("n", bits(2)))), ("v", (("nil",), ("n", bits(1)))))))),
-    ('{ var it = "é".iter(); var a = it.next(); var b = it.next(); var c = it.next(); out((a, b, c)); }',
-     ("ok", ("t", (("s", "é".encode()), ("stop",), ("stop",))))),
+    # (a tuple holding a StopIter cannot be printed by `show`: for-in ends at it)
+    ('{ var it = "é".iter(); var a = it.next(); var b = it.next(); var c = it.next(); out((a, show(b), show(c))); }',
+     ("ok", ("t", (("s", "é".encode()), ("s", b"S"), ("s", b"S"))))),
     ('out("aé".iter().next(1));', ("err", "TypeError", "num_args", ("0", "1"))),
 ]
 
 
 # ----------------------------------------------------------------------------------------------
 # running
+
+def run_cases(runner, case_lines, timeout=900):
+    """Like vlib.run_real, but output lines are split at \\n only (str.splitlines also splits at U+0085/U+2028/U+2029,
+    which strings under test contain) and undecodable output bytes are kept (surrogateescape) instead of raising:
+    an invalid-UTF-8 string is exactly what this property must be able to report."""
+    results = []
+    i = 0
+    while i < len(case_lines):
+        chunk = case_lines[i:]
+        data = ("\n".join(chunk) + "\n").encode("utf-8")
+        try:
+            p = subprocess.run([runner], input=data, stdout=subprocess.PIPE, stderr=subprocess.PIPE, timeout=timeout, env=vlib.ENV)
+            raw, rc = p.stdout, p.returncode
+        except subprocess.TimeoutExpired as e:
+            raw, rc = e.stdout or b"", "timeout"
+        parsed = []
+        for l in raw.split(b"\n"):
+            if not l:
+                continue
+            try:
+                parsed.append(json.loads(l.decode("utf-8", "surrogateescape")))
+            except Exception:
+                break
+        parsed = parsed[:len(chunk)]
+        results.extend(parsed)
+        if len(parsed) < len(chunk):
+            bad = chunk[len(parsed)].split()
+            results.append({"id": bad[1] if len(bad) > 1 else "?", "crash": str(rc)})
+            i += len(parsed) + 1
+        else:
+            i += len(chunk)
+    return results
+
 
 def run_statements(runner, stmts, per_case=250, workers=None):
     """Every statement is one `S:` step after the prelude step; returns one step dict (or None) per statement.
@@ -1031,7 +1075,7 @@ def run_statements(runner, stmts, per_case=250, workers=None):
         chunks = [list(range(i, min(i + 10, len(lines)))) for i in range(0, len(lines), 10)]
 
         def work(idx):
-            return vlib.run_real(runner, [lines[i] for i in idx], batch=10)
+            return run_cases(runner, [lines[i] for i in idx])
         if workers > 1 and len(chunks) > 1:
             with concurrent.futures.ThreadPoolExecutor(workers) as ex:
                 outs = list(ex.map(work, chunks))
@@ -1273,7 +1317,7 @@ def replay(ctx, payload):
     prog = payload.get("program")
     if not prog:
         return False, "nothing to replay: " + json.dumps(payload)[:400]
-    r = vlib.run_real(ctx.runner, [vlib.case_line("replay", ["S:" + vlib.hx(prog)], steps=5000000)])[0]
+    r = run_cases(ctx.runner, [vlib.case_line("replay", ["S:" + vlib.hx(prog)], steps=5000000)])[0]
     st = (r.get("steps") or [None])[0] if isinstance(r, dict) else None
     ans, viol = canon_real_step(st, caught=payload.get("route") == "try/catch")
     text = ["statement: %s" % payload.get("statement"), "real now: %s" % show_answer(ans)]
